@@ -89,6 +89,40 @@ impl<'a> Dfs<'a> {
             let _ = self.ctx.ch(c);
         }
     }
+    /// type `s` key by key judging every prefix, then remove it again with backspaces judging every list shown again
+    fn walk_word(&mut self, s: &str) {
+        let base = self.text.chars().count();
+        for c in s.chars() {
+            self.events += 1;
+            match self.ctx.ch(c) {
+                Ok(r) => {
+                    self.text.push(c);
+                    self.check(&r, false);
+                }
+                Err(f) => {
+                    self.fail(&f, Some(Ev::ch(c)));
+                    self.resync();
+                    break;
+                }
+            }
+        }
+        while self.text.chars().count() > base {
+            self.events += 1;
+            match self.ctx.bs() {
+                Ok(rb) => {
+                    self.text.pop();
+                    if !self.text.is_empty() {
+                        self.check(&rb, true);
+                    }
+                }
+                Err(f) => {
+                    self.fail(&f, Some(Ev::Bs));
+                    self.text.pop();
+                    self.resync();
+                }
+            }
+        }
+    }
     fn type_str(&mut self, s: &str) -> bool {
         for c in s.chars() {
             self.events += 1;
@@ -450,6 +484,77 @@ pub fn run(report: &Report, thorough: bool) -> Evidence {
             |_| (),
         );
         parts.insert("P7_mixed_alphabet_after_earlier_word_single_string".into(), json!({"alphabet": "ak(.:`", "max_len": n, "earlier_words": earlier, "suggestions_checked": checked.load(Ordering::Relaxed) - before.0, "key_events": events.load(Ordering::Relaxed) - before.1}));
+    }
+
+    // P9: data-guided LONG words (the enumerations above stop at 3-6 characters): every bundled auto-correct key, every
+    // English emoji name, every suffix key behind a few bases - typed key by key (every prefix judged) and removed again with
+    // backspaces (every list shown again judged); words of letters and digits also in the single-string mode, bare and wrapped
+    if crate::par::part_enabled("P9") {
+        let before = (checked.load(Ordering::Relaxed), events.load(Ordering::Relaxed));
+        let dict = crate::data::Dict::load(&real_db());
+        let mut words: std::collections::BTreeSet<String> = std::collections::BTreeSet::new();
+        let typeable = |w: &str| !w.is_empty() && w.chars().all(|c| (33..=126).contains(&(c as u32)));
+        for k in dict.autocorrect.keys() {
+            if typeable(k) {
+                words.insert(k.clone());
+            }
+        }
+        for k in emojicon::internal::emojis().keys() {
+            if typeable(k) {
+                words.insert(k.to_string());
+            }
+        }
+        let bases: &[&str] = if thorough { &["kor", "bol", "ja", "dekh", "shikkha", "manush", "oi", "rrin", "Kha", "b1"] } else { &["kor", "ja", "shikkha", "oi"] };
+        let mut sk: Vec<&String> = dict.suffix.keys().collect();
+        sk.sort();
+        for b in bases {
+            for s in &sk {
+                words.insert(format!("{}{}", b, s));
+            }
+        }
+        let words: Vec<String> = words.into_iter().collect();
+        let longest = words.iter().map(|w| w.chars().count()).max().unwrap_or(0);
+        let wraps: &[(&str, &str)] = &[("", ""), ("\"", "\""), ("(", ")."), ("'", "?"), ("-", "!")];
+        let cfgs = [off(false, true, false), on(true, true), off(true, false, true), on(false, false)];
+        let chunk = 64;
+        let jobs = (words.len() + chunk - 1) / chunk;
+        par_for(
+            jobs * cfgs.len(),
+            1,
+            |w| scratch_xdg(&format!("c03-P9-{}", w)),
+            |xdg, idx| {
+                let mut o = cfgs[idx % cfgs.len()].clone();
+                o.xdg = xdg.clone();
+                let lists = o.psugg;
+                let j = idx / cfgs.len();
+                o.via_update = j % 2 == 1;
+                let mut ctx = Ctx::new(&o).expect("ctx");
+                ctx.with_pre = !lists;
+                let mut d = Dfs { ctx, avro: &avro, report, alphabet: &[], checked: 0, events: 0, text: String::new(), lists, samples: &samples, part: "P9" };
+                for (wi, w) in words[j * chunk..((j + 1) * chunk).min(words.len())].iter().enumerate() {
+                    let alnum = w.chars().all(|c| c.is_ascii_alphanumeric());
+                    if !lists && !alnum {
+                        continue; // the single-string clause speaks of letters and digits (wrapped in the punctuation set)
+                    }
+                    // one wrapping per word in the quick tier (rotating), all of them in the thorough tier
+                    for (wj, (l, t)) in wraps.iter().enumerate() {
+                        if !thorough && wj != 0 && wj != 1 + (j * chunk + wi) % (wraps.len() - 1) {
+                            continue;
+                        }
+                        if !alnum && wj != 0 {
+                            continue;
+                        }
+                        let _ = d.ctx.apply(&Ev::Finish);
+                        d.text.clear();
+                        d.walk_word(&format!("{}{}{}", l, w, t));
+                    }
+                }
+                checked.fetch_add(d.checked, Ordering::Relaxed);
+                events.fetch_add(d.events, Ordering::Relaxed);
+            },
+            |_| (),
+        );
+        parts.insert("P9_data_guided_long_words".into(), json!({"words": words.len(), "longest": longest, "sources": "bundled auto-correct keys, English emoji names, bases x all suffix keys", "bases": bases, "wrappings": wraps.len(), "configurations": cfgs.len(), "suggestions_checked": checked.load(Ordering::Relaxed) - before.0, "key_events": events.load(Ordering::Relaxed) - before.1}));
     }
 
     let mut ev = Evidence::new("C03", &report.tier, "exploration");
